@@ -910,6 +910,11 @@ fn run(cfg: &Cfg) -> Report {
         },
         check,
     ));
+    if cfg.tier == Tier::Thorough && !rep.failed() {
+        // coverage-guided campaign: bytes select whitespace and up to 40 vocabulary tokens
+        // (libFuzzer target `parse`, same reference parser as the oracle)
+        rep.absorb(run_libfuzzer(cfg, "parse", 4_000_000, 48, &[], &[], fuzz_bytes));
+    }
     rep.assume("where the book's table (separate rows for / and *, - and +) and the EBNF (one left-associative level each) differ, the EBNF is the documented grammar; implicit multiplication continues only before a decimal number, an identifier, `(` or `?`; a trailing comma is accepted in argument lists, lists and struct fields");
     rep
 }
